@@ -46,7 +46,7 @@ TRUSTED_BASE = [
     "DataPayload decoding (serializer) is used as is; it is the subject of C02/C03",
 ]
 ASSUMPTIONS = [
-    "cell decryption / circuit authentication happen before on_data (C04/C05); the model starts at on_data's arguments; on_data takes the circuit id from the decrypted payload and ignores the id of the cell it arrived in (as the code does)",
+    "the model starts at on_data's arguments; in the harness every DATA cell is a really encrypted cell handed to the node's endpoint listeners with its UDP source address (PythonCryptoEndpoint.process_cell, Community.on_packet, on_cell and on_packet_from_circuit run for real; the harness encrypts with the hop's SessionKeys object); the cipher itself and circuit authentication are C04/C05; on_data takes the circuit id from the decrypted payload and ignores the id of the cell it arrived in (as the code does)",
     "asyncio runs create_transports and resolution callbacks as scheduled; their interleaving with other events is an event order of the model",
     "exit sockets come into being through join_circuit (event `join`, real code path with the creator's key unknown / known to the Network under the same or another address); socket removal/close and later address updates of the hop's Peer object are not events of the model",
     "cell handlers other than on_data that on_packet_from_circuit may re-dispatch to (create, extend, ping, ...) do not reach exit_data (checked syntactically: exit_data is referenced from on_data only) and are otherwise outside C06",
@@ -264,6 +264,34 @@ class Env:
         es = self.ov.exit_sockets.get(cid)
         return es if es is not before else None
 
+    def deliver_cell(self, src, cid, unwrapped: bytes, garble: bool = False) -> str:
+        """what really happens when a DATA cell arrives: the datagram is handed to the node's endpoint listeners with its UDP
+        source address; PythonCryptoEndpoint.on_packet/process_cell decrypts it with the keys of the exit socket (or own circuit)
+        registered under the cell's circuit id, Community.on_packet -> on_cell -> on_packet_from_circuit -> on_data follow.
+        The harness is the sender: it encrypts with the hop's SessionKeys (exit socket: FORWARD, own circuit: BACKWARD).
+        `unwrapped` = prefix + msg id + circuit id + rest, i.e. what on_data is to see."""
+        from ipv8.messaging.anonymization.payload import CellPayload
+        from ipv8.messaging.anonymization.tunnel import BACKWARD, FORWARD
+        from ipv8.messaging.interfaces.udp.endpoint import UDPv4Address, UDPv6Address
+        cell = CellPayload(cid, unwrapped[22:23] + unwrapped[27:])
+        es, circ = self.ov.exit_sockets.get(cid), self.ov.circuits.get(cid)
+        how = "no-keys(unknown-circuit)"
+        try:
+            if es is not None and es.hop.keys is not None:
+                cell.message = es.hop.keys.encrypt_str(cell.message, FORWARD)
+                how = "exit-socket-keys"
+            elif circ is not None and circ.hop.keys is not None:
+                cell.message = circ.hop.keys.encrypt_str(cell.message, BACKWARD)
+                how = "own-circuit-keys"
+        except Exception as ex:       # e.g. a payload too large for the cipher API: deliver undecryptable bytes
+            how = "encrypt-failed:" + type(ex).__name__
+        if garble and cell.message:
+            cell.message = bytes([cell.message[0] ^ 0x5A]) + cell.message[1:]
+            how = "garbled"
+        addr = (UDPv6Address if ":" in src[0] else UDPv4Address)(src[0], src[1])
+        self.plain_ep.notify_listeners((addr, cell.to_bin(self.pfx)))
+        return how
+
     def peer_moves(self, cid, ip, port):
         """what lazy_wrapper does when a signed message of the creator's key arrives from (ip, port): the Network's Peer object
         for that key (if any, else a new one that is then added) learns the address"""
@@ -285,7 +313,9 @@ class Env:
 
     def new_circuit(self, cid, ip, port, ctype):
         c = self.T.Circuit(cid, 1, getattr(self.T, "CIRCUIT_TYPE_" + ctype))
-        c.add_hop(self.T.Hop(self.peer(ip, port), None))
+        # session keys of the hop: the harness plays the far end of the circuit and encrypts with the same SessionKeys object
+        import os as _os
+        c.add_hop(self.T.Hop(self.peer(ip, port), self.ov.crypto.generate_session_keys(_os.urandom(32))))
         self.ov.circuits[cid] = c
         return c
 
@@ -474,7 +504,7 @@ async def open_socket_for_gate(env: Env, cid=900):
     if es is None:
         raise InfraError("on_create did not create an exit socket for the gate tests")
     env.set_flags([env.F_BT, env.F_IPV8])
-    env.ov.on_data(("10.9.9.9", 7000), data_packet(env.pfx, cid, ("4", "1.1.1.1", 53), b"d1:ae"), None)
+    env.deliver_cell(("10.9.9.9", 7000), cid, data_packet(env.pfx, cid, ("4", "1.1.1.1", 53), b"d1:ae"))
     await env.drain()
     if not es.enabled:
         es.enable()          # part A is about the gate only; how sockets get opened is judged in part B
@@ -823,7 +853,10 @@ def draw_event(rng, env: Env, h, pend_gates, pend_dns, open_fams):
         dest = (dest[0], "93.184.216.34" if dest[0] == "4" else "2001:db8::1", dest[2])
         while not spec_allowed(env.F_BT in h["flags"], env.F_IPV8 in h["flags"], env.pfx, p):
             kind, p = payload_pool(rng, env.pfx)
-    return {"ev": "data", "src": list(src), "cid": cid, "dest": list(dest), "data": p.hex(), "pkind": kind}
+    ev = {"ev": "data", "src": list(src), "cid": cid, "dest": list(dest), "data": p.hex(), "pkind": kind}
+    if not burst and rng.random() < 0.04:
+        ev["garbled"] = True        # the ciphertext is damaged / made with other keys: the cell must not decrypt
+    return ev
 
 
 def literal_infos(host: str):
@@ -918,7 +951,7 @@ async def run_history(ctx: Ctx, env: Env, h, fixed_events=None):
             p = bytes.fromhex(e["data"])
             pkt = data_packet(env.pfx, cid, dest, p, tuple(e["origin"]) if e.get("origin") else ("4", "0.0.0.0", 0))
             try:
-                env.ov.on_data((e["src"][0], e["src"][1]), pkt, None)
+                ctx.count("B:cell:" + env.deliver_cell((e["src"][0], e["src"][1]), cid, pkt, garble=bool(e.get("garbled"))))
             except Exception as ex:
                 env.log.append(("raised", type(ex).__name__))
             line = f"data {hx(e['src'][0].encode())} {e['src'][1]} {cid} {dest[0]} {hx(dest[1].encode())} {dest[2]} {hx(p)}"
@@ -1118,6 +1151,13 @@ async def run_history(ctx: Ctx, env: Env, h, fixed_events=None):
         # ---- canonical reply, same shape as the driver's ----
         if e["ev"] == "peer-moves":
             continue                      # not an event of the model: hop addresses are immutable there
+        if e.get("garbled"):
+            es_g = sockobj.get(cid)
+            if new or (es_g is not None and (es_g.enabled != enabled_before[cid] or len(es_g.queue) != qlen_before[cid])):
+                ctx.oracle_fail("PythonCryptoEndpoint.process_cell:undecryptable-cell-had-an-effect",
+                                f"event {i}: a cell for circuit {cid} whose ciphertext does not authenticate caused {[x[0] for x in new]}",
+                                {"part": "B", "history": {**h, "socks": initial, "events": events, "community": env.community}})
+            continue                      # never reaches on_data: not an event of the model
         if e["ev"] == "flags":
             rep = "ok"
         elif e["ev"] == "join":
@@ -1284,6 +1324,8 @@ REQUIRED_BRANCHES = [
     # on_create / join_circuit
     "B:join:accepted", "B:join:refused:circuit-id-in-use", "B:join:refused:no-peer-flags",
     "B:join:creator-key:known-at-other-ip", "B:peer-moves:network-peer-updated",
+    # endpoint -> PythonCryptoEndpoint.process_cell -> on_cell -> on_packet_from_circuit -> on_data
+    "B:cell:exit-socket-keys", "B:cell:own-circuit-keys", "B:cell:no-keys(unknown-circuit)",
 ]
 
 
